@@ -179,8 +179,9 @@ where
 
         let result = self.call(ctx);
 
-        cleanup(ctx.state_mut(), key_ident, old_key);
+        // restore in reverse order of binding: both parameters may name the same variable
         cleanup(ctx.state_mut(), value_ident, old_value);
+        cleanup(ctx.state_mut(), key_ident, old_key);
 
         result
     }
@@ -208,8 +209,9 @@ where
 
         let result = self.call(ctx);
 
-        cleanup(ctx.state_mut(), index_ident, old_index);
+        // restore in reverse order of binding: both parameters may name the same variable
         cleanup(ctx.state_mut(), value_ident, old_value);
+        cleanup(ctx.state_mut(), index_ident, old_index);
 
         result
     }
